@@ -34,7 +34,7 @@ impl Prop for C02 {
     fn runs(&self, tier: Tier) -> u64 {
         match tier {
             Tier::Quick => 600_000,
-            Tier::Thorough => 10_000_000,
+            Tier::Thorough => 3_000_000,
             Tier::Tiny => 40,
         }
     }
@@ -56,11 +56,17 @@ impl Prop for C02 {
         v.into_iter().map(String::from).collect()
     }
 
-    fn gen(&self, seed: u64, run: u64, _tier: Tier) -> Trace {
+    fn gen(&self, seed: u64, run: u64, tier: Tier) -> Trace {
         let mut rng = Rng::new(mix(seed, "C02", run));
-        let mut trng = Rng::new(mix(seed, "C02-tree", run / 16));
-        let depth = *trng.pick(&[2usize, 3, 4]);
-        let fan = *trng.pick(&[2usize, 3, 5]);
+        let deep = tier == Tier::Thorough && run % 4 == 3;
+        let mut trng = if deep {
+            // few, large trees (they are leaked and shared through the tree cache)
+            Rng::new(mix(seed, "C02-deeptree", run / 8192))
+        } else {
+            Rng::new(mix(seed, "C02-tree", run / 16))
+        };
+        let depth = if deep { 6 } else { *trng.pick(&[2usize, 3, 4]) };
+        let fan = if deep { 6 } else { *trng.pick(&[2usize, 3, 5]) };
         let commons = trng.usize_below(4);
         let tree = gen_tree(&mut trng, false, depth, fan, commons);
         let controllers = *rng.pick(&[1u8, 1, 2, 3]);
@@ -91,7 +97,7 @@ impl Prop for C02 {
             .collect();
         let non_commons: Vec<usize> = tc.sim_leaves.iter().copied().filter(|i| !commons.contains(i)).collect();
         for _ in 0..nmsg {
-            let k = *rng.pick(&[1usize, 2, 3, 5, 8]);
+            let k = if deep { 24 } else { *rng.pick(&[1usize, 2, 3, 5, 8]) };
             let k = rng.urange(1, k);
             let mut units = Vec::new();
             let mut level: Vec<usize> = Vec::new();
